@@ -11,6 +11,7 @@ import MV.Driver.Fit
 import MV.Driver.KDE
 import MV.Driver.TTest
 import MV.Driver.Dists
+import MV.Driver.Purity
 open MV
 
 /-- ops whose handler models panics itself -/
@@ -31,6 +32,7 @@ def dispatchOp (ins outs : List J) : Verdict :=
   | .atom "kde" :: rest => KDE.handleKDE rest outs
   | .atom "tt" :: rest => TTest.handleTT rest outs
   | .atom "nd" :: rest => Dists.handleND rest outs
+  | .atom "pure" :: rest => Purity.handle rest outs
   | .atom "td" :: rest => Dists.handleTD rest outs
   | .atom "dd" :: rest => Dists.handleDD rest outs
   | .atom "mx" :: rest => Dists.handleMX rest outs
